@@ -204,4 +204,28 @@ theorem writeDotIO_fail_first (A : Arr) (names : List String) (pruned : Bool) (s
     simp only [hp]
     rfl
 
+/-- the outcome of a budget sink does not depend on how the text is cut into pieces -/
+theorem budgetPieces_spec : ∀ (ps : List (List UInt8)) (b : Nat),
+    budgetPieces b ps = if b < ps.flatten.length then (false, ps.flatten.take b) else (true, ps.flatten)
+  | [], b => by simp [budgetPieces]
+  | p :: ps, b => by
+    rw [budgetPieces]
+    by_cases h0 : p.length = 0
+    · have : p = [] := List.eq_nil_of_length_eq_zero h0
+      subst this
+      simp [budgetPieces_spec ps b]
+    · rw [if_neg h0]
+      by_cases hle : p.length ≤ b
+      · rw [if_pos hle]
+        simp only [budgetPieces_spec ps (b - p.length), List.flatten_cons, List.length_append]
+        by_cases hlt : b - p.length < ps.flatten.length
+        · have : b < p.length + ps.flatten.length := by omega
+          simp only [hlt, this, if_true, List.take_append, List.take_of_length_le hle]
+        · have : ¬ b < p.length + ps.flatten.length := by omega
+          simp only [hlt, this, if_false]
+      · rw [if_neg hle]
+        have : b < p.length + ps.flatten.length := by omega
+        simp only [List.flatten_cons, List.length_append, this, if_true]
+        rw [List.take_append_of_le_length (by omega)]
+
 end B.Dot
